@@ -110,3 +110,26 @@ Lemma e2_c07_fixed_replay :
   exists s th2, run init (e2_c07_once 1 ++ AStart 2 e2_meta5 :: e2_rs 2 2) = Some s /\
     length (persisted s) = 1 /\ get_thread (threads s) 2 = Some th2 /\ t_resp th2 = Some (ROk None).
 Proof. vm_compute. eexists. eexists. repeat split. Qed.
+
+(* ---- C07 same outcome: a key stored by another kind of write (known finding, on the model as it is) ---------------- *)
+(* a transaction is committed with key 5; a SaveMeta request carrying key 5 finds the entry, does not look at it,
+   writes nothing and reports success: [ROk None] although the entry under the key has transaction id 0 *)
+Definition e2_pay_k5 : request := e2_req KCreate 5 0 [(world, 1%N, 10%Z)] 0.
+Definition e2_c07_mixed : list action :=
+  AStart 1 e2_pay_k5 :: e2_rs 1 10 ++ [APersistOk] ++ e2_rs 1 3 ++ AStart 2 e2_meta5 :: e2_rs 2 2.
+
+Lemma e2_c07_mixed_witness :
+  exists s e th, run init e2_c07_mixed = Some s /\ persisted s = [e] /\ get_thread (threads s) 2 = Some th /\
+    t_resp th = Some (ROk None) /\ rq_dry (t_req th) = false /\ rq_ik (t_req th) = 5%N /\
+    e_ik e = 5%N /\ e_txid e = Some 0 /\ e_kind e = KCreate /\ rq_kind (t_req th) = KSaveMeta.
+Proof. vm_compute. eexists. eexists. eexists. repeat split. Qed.
+
+Lemma e2_ik_same_outcome_refuted : exists s, reachable s /\ ~ ik_same_outcome s.
+Proof.
+  destruct e2_c07_mixed_witness as [s [e [th (Hrun&Hp&Hth&Hresp&Hdry&Hik&Eik&Etx&_)]]].
+  exists s. split; [exists e2_c07_mixed; exact Hrun|]. intros H.
+  assert (Hin : In e (persisted s)) by (rewrite Hp; left; reflexivity).
+  assert (Hk : rq_ik (t_req th) <> 0%N) by (rewrite Hik; discriminate).
+  assert (Heq : e_ik e = rq_ik (t_req th)) by congruence.
+  pose proof (H 2 th None e Hth Hresp Hdry Hk Hin Heq) as C. rewrite Etx in C. discriminate.
+Qed.
